@@ -21,7 +21,7 @@ import ndn.encoding as enc
 import ndn.utils as ndn_utils
 from ndn.app_support import security_v2 as sv2
 from ndn.app_support.light_versec import compile_lvs, Checker, lvs_validator, DEFAULT_USER_FNS
-from ndn.security import Sha256WithEcdsaSigner, Sha256WithRsaSigner, DigestSha256Signer
+from ndn.security import Sha256WithEcdsaSigner, Sha256WithRsaSigner, DigestSha256Signer, HmacSha256Signer
 
 from mc.core import Acc
 from mc.vloop import VLoop, tb_where
@@ -50,7 +50,7 @@ SCHEMA_ALT = SCHEMA_LINEAR.replace('#d2: #site/"data"/"d2"/x <= #l1', '#d2: #sit
     .replace('#l2: #site/"l1"/"l2"/#KEY <= #l1', '#l2: #site/"l1"/"l2"/#KEY <= #l1 | #anchor')
 SCHEMAS = {'linear': SCHEMA_LINEAR, 'alt': SCHEMA_ALT}
 LEVEL_PREFIX = ['/t', '/t/l1', '/t/l1/l2', '/t/l1/l2/l3']
-DEVIATIONS = ['unknown-signature-type', 'issuer-not-allowed', 'bad-signature', 'substituted-key', 'missing', 'nack', 'no-siginfo', 'no-keylocator',
+DEVIATIONS = ['hmac-with-public-bits', 'unknown-signature-type', 'issuer-not-allowed', 'bad-signature', 'substituted-key', 'missing', 'nack', 'no-siginfo', 'no-keylocator',
               'keylocator-digest', 'self-loop', 'two-cycle']
 KEYS = {'ec': ['ec256_0', 'ec256_1', 'ec256_2', 'ec256_3', 'ec256_4'], 'rsa': ['rsa2048_0', 'rsa2048_1', 'rsa2048_2', 'rsa2048_3']}
 
@@ -73,8 +73,9 @@ class Clock:
 class Hierarchy:
     """anchor + intermediates + packet, with an optional deviation at link `at` (0 = the packet, k = certificate of level depth-k ...)"""
 
-    def __init__(self, depth, types, deviation=None, at=None, keyset=0, tag='h'):
+    def __init__(self, depth, types, deviation=None, at=None, keyset=0, tag='h', kid_base=0):
         self.depth = depth
+        self.kid_base = kid_base
         self.store = {}          # cert name bytes -> wire
         self.nack = set()
         old = ndn_utils.time
@@ -93,7 +94,7 @@ class Hierarchy:
     def build(self, depth, types, deviation, at, keyset, tag):
         start = dt.datetime(2024, 1, 1)
         # level 0 = anchor ... level depth-1 = signer of the packet
-        kn = [enc.Name.from_str(LEVEL_PREFIX[lv] + f'/KEY/%0{lv + 1}') for lv in range(depth)]
+        kn = [enc.Name.from_str(LEVEL_PREFIX[lv] + f'/KEY/%{self.kid_base + lv + 1:02X}') for lv in range(depth)]
         keys = [self.keyname(lv, types, keyset) for lv in range(depth)]
         certs = [None] * depth
         names = [None] * depth
@@ -126,6 +127,9 @@ class Hierarchy:
                 signer = KeyDigestSigner(signer)
             elif dev == 'unknown-signature-type':
                 signer = OddTypeSigner(signer)
+            elif dev == 'hmac-with-public-bits':
+                # anybody can compute an HMAC keyed with the (public) key bits of the named certificate
+                signer = HmacSha256Signer(issuer_cert_name, pub_der(issuer_key))
             name, cert = sv2.derive_cert(kn[lv], f'i{lv}', subject_pub, signer, start, 3600 * 24)
             if dev == 'self-loop':
                 name, cert = sv2.derive_cert(kn[lv], f'i{lv}', subject_pub, SelfLocatorSigner(signer_for(keys[lv], kn[lv]), kn[lv], f'i{lv}'), start, 3600 * 24)
@@ -170,6 +174,8 @@ class Hierarchy:
             signer = KeyDigestSigner(signer)
         elif dev == 'unknown-signature-type':
             signer = OddTypeSigner(signer)
+        elif dev == 'hmac-with-public-bits':
+            signer = HmacSha256Signer(names[depth - 1], pub_der(keys[depth - 1]))
         elif dev in ('self-loop', 'two-cycle'):
             signer = signer_for(keys[depth - 1], pname)           # the packet names itself as its key
         elif dev == 'no-siginfo':
@@ -424,8 +430,13 @@ def run_constructor(kind):
 def isolation_world():
     """two hierarchies with the same names but different keys (A, B) and one more unrelated packet"""
     hA = Hierarchy(2, ['ec', 'ec'], keyset=0, tag='pA')
-    hB = Hierarchy(2, ['ec', 'ec'], keyset=2, tag='pB')
+    hB = Hierarchy(2, ['ec', 'ec'], keyset=2, tag='pB', kid_base=0x80)      # other keys, other key ids: both chains are retrievable
     hN = Hierarchy(2, ['ec', 'ec'], 'bad-signature', 0, keyset=0, tag='pN')
+    # pX: genuinely signed by A's level-1 key, but the KeyLocator names another certificate of that key that nobody can retrieve
+    kn = enc.Name.from_str(LEVEL_PREFIX[1] + '/KEY/%02')
+    rogue = kn + [enc.Component.from_str('rogue'), enc.Component.from_version(1)]
+    hA.pX = bytes(enc.make_data('/t/data/d2/pX', enc.MetaInfo(freshness_period=1000), b'payload-pX',
+                                signer_for(hA.keyname(1, ['ec', 'ec'], 0), rogue)))
     return hA, hB, hN
 
 
@@ -433,13 +444,13 @@ def run_isolation(seq):
     """seq: list of (instance 'A'|'B', packet 'pA'|'pB'|'pN')"""
     viol = []
     hA, hB, hN = isolation_world()
-    pk = {'pA': hA.packet, 'pB': hB.packet, 'pN': hN.packet}
-    fresh = {('A', 'pA'): True, ('A', 'pB'): False, ('A', 'pN'): False, ('B', 'pA'): False, ('B', 'pB'): True, ('B', 'pN'): False}
+    pk = {'pA': hA.packet, 'pB': hB.packet, 'pN': hN.packet, 'pX': hA.pX}
+    fresh = {('A', 'pA'): True, ('A', 'pB'): False, ('A', 'pN'): False, ('A', 'pX'): False,
+             ('B', 'pA'): False, ('B', 'pB'): True, ('B', 'pN'): False, ('B', 'pX'): False}
     for i_, p_ in fresh:
         fresh_verdict(i_, p_)        # computed on separate fresh instances, before this execution's loop is entered
     net = Net()
     try:
-        # the network serves B's certificates under the shared names (a name resolves to one certificate)
         net.serve(hB)
         net.serve(hA)
         vA = lvs_validator(checker_for('linear'), net.app, hA.anchor)
@@ -448,6 +459,9 @@ def run_isolation(seq):
         for k, (inst, p) in enumerate(seq):
             res = net.validate(vA if inst == 'A' else vB, pk[p])
             want = fresh_verdict(inst, p)
+            if want != fresh[(inst, p)]:
+                viol.append((f'C14|isolation|fresh-verdict|{inst}:{p}|got={want}', f'fresh instance {inst} gives {want} for {p}, expected {fresh[(inst, p)]}'))
+                break
             if res.get('v') != want:
                 viol.append((f"C14|isolation|verdict-depends-on-history|{inst}:{p}|got={res.get('v')}|fresh={want}",
                              f'validation {k} ({inst} validates {p}) in history {seq} gives {res.get("v")}, on fresh instances {want}'))
@@ -465,7 +479,7 @@ _FRESH = {}
 def fresh_verdict(inst, p):
     if (inst, p) not in _FRESH:
         hA, hB, hN = isolation_world()
-        pk = {'pA': hA.packet, 'pB': hB.packet, 'pN': hN.packet}
+        pk = {'pA': hA.packet, 'pB': hB.packet, 'pN': hN.packet, 'pX': hA.pX}
         net = Net()
         try:
             net.serve(hB)
@@ -479,7 +493,7 @@ def fresh_verdict(inst, p):
 
 
 def iso_sequences(tier):
-    items = [(i, p) for i in 'AB' for p in ('pA', 'pB', 'pN')]
+    items = [(i, p) for i in 'AB' for p in ('pA', 'pB', 'pN', 'pX')]
     for n in range(1, 4 if tier == 'quick' else 5):
         yield from itertools.product(items, repeat=n)
 
@@ -489,7 +503,7 @@ def plan(tier, seed):
     units = [{'kind': 'chain', 'lo': lo, 'hi': min(len(cases), lo + 8), 'tier': tier} for lo in range(0, len(cases), 8)]
     units.append({'kind': 'constructor'})
     seqs = list(iso_sequences(tier))
-    units += [{'kind': 'isolation', 'lo': lo, 'hi': min(len(seqs), lo + 20), 'tier': tier} for lo in range(0, len(seqs), 20)]
+    units += [{'kind': 'isolation', 'lo': lo, 'hi': min(len(seqs), lo + 12), 'tier': tier} for lo in range(0, len(seqs), 12)]
     return {
         'units': units,
         'rule': 'chain: execution = (schema, depth, key types, deviation, link); isolation: execution = order of <=3 (quick) / <=4 (thorough) '
